@@ -789,7 +789,7 @@ def execNode : Nat → Node → XM Unit
       let cv ← eval fuel c
       let mv ← eval fuel m
       let wv ← eval fuel w
-      let value := floatToInt (Float.ceil (cv.v.toFloat / mv.v.toFloat * wv.v.toFloat + 0.5))
+      let value := floatToInt (Float.floor (cv.v.toFloat / mv.v.toFloat * wv.v.toFloat + 0.5))
       if asName = [] then write (fmtInt value)
       else modifyCur fun f => { f with priv := f.priv.set asName (.int value) }
     | .tagWith pairs body => do
